@@ -37,7 +37,11 @@ Targets == {"Unrestricted", "MacRoman"}
 \* without one, where first = 32 is what Font and the subsetter fall back to.  Slot 0 is glyph 0.
 PO(fam, enc, first, os2, codes, slots, list, G, pad, padpos, target) ==
   [fam |-> fam, enc |-> enc, first |-> first, os2 |-> os2, codes |-> codes, slots |-> slots, list |-> list,
-   G |-> G, pad |-> pad, padpos |-> padpos, target |-> target]
+   G |-> G, pad |-> pad, padpos |-> padpos, target |-> target, src |-> 0]
+\* a source given as a table of module Cmap: src = number of the table in TabSources
+PT(srcno, enc, list, G, target) ==
+  [fam |-> "tab", enc |-> enc, first |-> 32, os2 |-> TRUE, codes |-> <<>>, slots |-> <<>>, list |-> list,
+   G |-> G, pad |-> 0, padpos |-> "before", target |-> target, src |-> srcno]
 P(fam, enc, first, codes, slots, list, G, pad, padpos, target) ==
   PO(fam, enc, first, TRUE, codes, slots, list, G, pad, padpos, target)
 
@@ -147,18 +151,125 @@ InitSym ==
       par = PO("sym", "Symbol", f, o, Asc(S), Iota(k), l, k, 0, "before", t)
 
 ---------------------------------------------------------------------------
+\* Sources given as TABLES of module Cmap (round 3, after the seeded change C08-r3m1): every format whose
+\* enumeration the subsetter walks (mappings_fn: 0, 2, 4, 6, 10, 12), with holes (glyphIndexArray / glyphIdArray
+\* entries 0, also under a non-zero idDelta), idDelta arithmetic that wraps, windows on the first / last code of
+\* the format's range, shared arrays, explicit glyph 0.  Glyphs 1 .. TG; the id lists retain all of them (in
+\* order, reversed) or drop one of the first three (the glyph a wrongly applied idDelta would name among them).
+TG == 6
+\* subHeaderKeys: byte leads[i] -> sub-header i (times 8), every other byte -> sub-header 0
+Keys2(leads) == [b \in 1 .. 256 |-> LET S == {i \in 1 .. Len(leads) : leads[i] = b - 1} IN IF S = {} THEN 0 ELSE 8 * (CHOOSE i \in S : TRUE)]
+\* idRangeOffset of sub-header k (0-based) of N whose window starts at glyphIndexArray[j]
+RO2(N, k, j) == 8 * (N - k) - 6 + 2 * j
+Sub(f, c, d, N, k, j) == [first |-> f, count |-> c, delta |-> d, ro |-> RO2(N, k, j)]
+F2(leads, subs, gia) == [fmt |-> 2, keys |-> Keys2(leads), subs |-> subs, gia |-> gia]
+\* idRangeOffset of segment i (1-based) of N whose window starts at glyphIdArray[j]
+RO4(N, i, j) == 2 * (N - (i - 1) + j)
+Seg(s, e, d, ro) == [s |-> s, e |-> e, delta |-> d, ro |-> ro]
+LastSeg == Seg(65535, 65535, 1, 0)
+Grp(s, e, g) == [s |-> s, e |-> e, g |-> g]
+TS(name, p, e, enc, t) == [name |-> name, p |-> p, e |-> e, enc |-> enc, t |-> t]
+
+TabSources == <<
+  \* ---- format 2 under a Unicode record: the codes are the characters
+  \* single-byte codes only, holes, idDelta 0
+  TS("f2-single", 3, 1, "Unicode", F2(<<>>, <<Sub(65, 5, 0, 1, 0, 0)>>, <<1, 0, 2, 3, 0>>)),
+  \* single-byte codes, holes under a non-zero idDelta (entry 0 stays glyph 0, not glyph idDelta)
+  TS("f2-single-delta-holes", 3, 1, "Unicode", F2(<<>>, <<Sub(65, 5, 2, 1, 0, 0)>>, <<1, 0, 3, 0, 2>>)),
+  \* two-byte codes, holes under a non-zero idDelta; glyph idDelta (2) is a glyph of the font
+  TS("f2-double-delta-holes", 3, 1, "Unicode",
+     F2(<<129>>, <<Sub(65, 2, 0, 2, 0, 0), Sub(64, 4, 2, 2, 1, 2)>>, <<5, 6, 1, 0, 2, 0>>)),
+  \* idDelta arithmetic modulo 65536: negative delta, and entry + delta beyond 65535
+  TS("f2-delta-wraps", 3, 1, "Unicode",
+     F2(<<129, 130>>, <<Sub(65, 1, 0, 3, 0, 0), Sub(64, 4, -4, 3, 1, 1), Sub(161, 3, 3, 3, 2, 5)>>, <<1, 5, 6, 0, 10, 65535, 0, 65534>>)),
+  \* two sub-headers whose windows overlap in the glyphIndexArray, different idDelta; two lead bytes with ONE sub-header
+  TS("f2-shared-arrays", 3, 1, "Unicode",
+     F2(<<129, 130>>, <<Sub(66, 1, 0, 3, 0, 0), Sub(64, 3, 0, 3, 1, 1), Sub(161, 2, 1, 3, 2, 2)>>, <<6, 1, 2, 3>>)),
+  TS("f2-two-leads-one-subheader", 3, 1, "Unicode",
+     [fmt |-> 2, keys |-> [b \in 1 .. 256 |-> IF b - 1 \in {129, 144} THEN 8 ELSE 0],
+      subs |-> <<Sub(65, 2, 0, 2, 0, 0), Sub(64, 3, 1, 2, 1, 2)>>, gia |-> <<5, 6, 1, 0, 3>>]),
+  \* windows on the boundaries: low byte 0 and 0xFF, lead bytes 0x01 and 0xFF, single-byte codes 0 and 0xFE, a
+  \* sub-header without entries
+  TS("f2-boundaries", 3, 1, "Unicode",
+     F2(<<1, 255, 144>>, <<Sub(0, 1, 0, 4, 0, 0), Sub(0, 2, 1, 4, 1, 1), Sub(254, 2, 0, 4, 2, 3), Sub(64, 0, 5, 4, 3, 0)>>, <<1, 0, 2, 3, 4>>)),
+  TS("f2-single-last", 3, 1, "Unicode", F2(<<>>, <<Sub(254, 2, 1, 1, 0, 0)>>, <<0, 1>>)),
+  \* ---- format 2 under the Windows Big5 record (the route Big5 fonts take): ASCII single bytes, lead byte 0xA4
+  \* with 0xA440 .. 0xA445 (holes at U+4E59, U+4E43; idDelta 1: glyph 1 exists)
+  TS("big5-f2-delta-holes", 3, 4, "Big5",
+     F2(<<164>>, <<Sub(65, 2, 0, 2, 0, 0), Sub(64, 6, 1, 2, 1, 2)>>, <<1, 6, 1, 0, 2, 3, 0, 4>>)),
+  \* lead bytes 0xA1 (U+3000, U+3002; the codes between are holes), 0xA3 (U+03B5), 0xA6 (U+597D), 0xF9 (U+9F98)
+  TS("big5-f2-sample", 3, 4, "Big5",
+     F2(<<161, 163, 166, 249>>,
+        <<Sub(126, 1, 0, 5, 0, 0), Sub(64, 4, 3, 5, 1, 1), Sub(96, 1, -2, 5, 2, 5), Sub(110, 1, 0, 5, 3, 6), Sub(213, 1, 65535 - 65536, 5, 4, 7)>>,
+        <<6, 65534, 0, 0, 65535, 5, 4, 4>>)),
+  \* single-byte sub-header only (an ASCII-only Big5 font), holes under idDelta 3
+  TS("big5-f2-single", 3, 4, "Big5", F2(<<>>, <<Sub(65, 4, 3, 1, 0, 0)>>, <<1, 0, 0, 2>>)),
+  \* ---- format 2 under the Windows Symbol record
+  TS("sym-f2-double-delta-holes", 3, 0, "Symbol",
+     F2(<<240>>, <<Sub(65, 2, 0, 2, 0, 0), Sub(64, 4, 2, 2, 1, 2)>>, <<5, 6, 1, 0, 2, 0>>)),
+  \* ---- format 6
+  TS("f6-holes", 3, 1, "Unicode", [fmt |-> 6, first |-> 65, gia |-> <<1, 0, 2, 0, 0, 3>>]),
+  TS("f6-first-code-0", 0, 3, "Unicode", [fmt |-> 6, first |-> 0, gia |-> <<1, 2, 0, 3>>]),
+  TS("f6-ends-0xFFFF", 3, 1, "Unicode", [fmt |-> 6, first |-> 65533, gia |-> <<4, 0, 5>>]),
+  TS("f6-leading-and-trailing-0", 3, 1, "Unicode", [fmt |-> 6, first |-> 64, gia |-> <<0, 6, 5, 0>>]),
+  TS("mac-f6-holes", 1, 0, "AppleRoman", [fmt |-> 6, first |-> 65, gia |-> <<1, 0, 2>>]),
+  TS("mac-f6-ends-0xFF", 1, 0, "AppleRoman", [fmt |-> 6, first |-> 253, gia |-> <<3, 0, 4>>]),
+  TS("sym-f6-pua", 3, 0, "Symbol", [fmt |-> 6, first |-> 61505, gia |-> <<1, 0, 2>>]),
+  \* ---- format 10
+  TS("f10-holes", 3, 10, "Unicode", [fmt |-> 10, first |-> 65, gia |-> <<0, 1, 0, 2>>]),
+  TS("f10-spans-bmp-border", 3, 10, "Unicode", [fmt |-> 10, first |-> 65534, gia |-> <<1, 0, 2, 3>>]),
+  TS("f10-ends-0x10FFFF", 0, 4, "Unicode", [fmt |-> 10, first |-> 1114110, gia |-> <<5, 6>>]),
+  TS("f10-first-code-0", 3, 10, "Unicode", [fmt |-> 10, first |-> 0, gia |-> <<4, 0, 3>>]),
+  \* ---- format 0 under a Unicode record: codes 0 and 255, holes everywhere else
+  TS("f0-unicode", 0, 3, "Unicode", [fmt |-> 0, gia |-> [b \in 1 .. 256 |-> IF b = 1 THEN 1 ELSE IF b = 66 THEN 2 ELSE IF b = 68 THEN 3 ELSE IF b = 256 THEN 4 ELSE 0]]),
+  TS("mac-f0-first-last", 1, 0, "AppleRoman", [fmt |-> 0, gia |-> [b \in 1 .. 256 |-> IF b = 33 THEN 1 ELSE IF b = 66 THEN 2 ELSE IF b = 129 THEN 3 ELSE IF b = 256 THEN 4 ELSE 0]]),
+  \* ---- format 4: glyphIdArray windows with holes under a non-zero idDelta, idDelta that wraps both ways
+  TS("f4-gia-delta-holes", 3, 1, "Unicode",
+     [fmt |-> 4, segs |-> <<Seg(65, 68, 3, RO4(2, 1, 0)), LastSeg>>, gia |-> <<1, 0, 2, 65535>>]),
+  TS("f4-delta-wraps", 3, 1, "Unicode",
+     [fmt |-> 4, segs |-> <<Seg(97, 99, -96, 0), Seg(65520, 65522, 20, 0), LastSeg>>, gia |-> <<>>]),
+  TS("f4-shared-gia", 3, 1, "Unicode",
+     [fmt |-> 4, segs |-> <<Seg(65, 66, 0, RO4(3, 1, 0)), Seg(72, 74, 1, RO4(3, 2, 1)), LastSeg>>, gia |-> <<1, 2, 0, 4>>]),
+  TS("sym-f4-gia-delta-holes", 3, 0, "Symbol",
+     [fmt |-> 4, segs |-> <<Seg(61505, 61508, 3, RO4(2, 1, 0)), LastSeg>>, gia |-> <<1, 0, 2, 65535>>]),
+  \* ---- format 12: a group that starts at glyph 0, codes that are not characters (surrogates), the last scalar
+  TS("f12-group-from-glyph-0", 3, 10, "Unicode", [fmt |-> 12, groups |-> <<Grp(65, 68, 0), Grp(72, 72, 5)>>]),
+  TS("f12-surrogates", 3, 10, "Unicode", [fmt |-> 12, groups |-> <<Grp(55295, 55296, 3), Grp(57343, 57344, 1)>>]),
+  TS("f12-last-scalar", 0, 4, "Unicode", [fmt |-> 12, groups |-> <<Grp(65535, 65536, 1), Grp(1114111, 1114111, 6)>>]) >>
+NTab == Len(TabSources)
+TabT(i) == TabSources[i].t
+
+\* probes of a table source: the characters of the listed codes and of their neighbours (for format 2 only complete
+\* codes: Cmap!Dev_Fmt2Incomplete leaves the others open), and fixed ones; no optional Mac Roman character
+NearCodes(t) == LET C == Covered(t) IN C \cup {c - 1 : c \in C} \cup {c + 1 : c \in C} \cup {0, 65, 66, 255, 256, 65535, 65536, 1114111}
+TabCodes(t) == {c \in NearCodes(t) : c >= 0 /\ c <= 1114111 /\ (t.fmt # 2 \/ c > 65535 \/ Valid2(t, c))}
+XTOf(i) ==
+  LET ts == TabSources[i]  C == TabCodes(ts.t) IN
+  (CASE ts.enc = "Unicode"    -> {c \in C : IsScalar(c)}
+     [] ts.enc = "Symbol"     -> {SYM + c : c \in C} \cup {c \in C : IsScalar(c) /\ c \notin PuaImage}
+     [] ts.enc = "AppleRoman" -> {MacToUni(b) : b \in C \cap (0 .. 255)} \cup {256, 65536}
+     [] ts.enc = "Big5"       -> Big5KnownChars \cup NotBig5Chars \cup {12289, 20058, 65536})
+  \ MacOptionalChars
+TabLists == {Iota(TG), Rev(Iota(TG)), Drop(Iota(TG), 1), Drop(Iota(TG), 2), Drop(Iota(TG), 3)}
+InitTab ==
+  \E i \in 1 .. NTab : \E l \in TabLists : \E t \in Targets :
+    par = PT(i, TabSources[i].enc, l, TG, t)
+
+---------------------------------------------------------------------------
 \* concretisation: slot j is glyph pad + j ("before") or j ("after", "front"); the pad glyphs are
 \* listed before the slot glyphs ("before", "front") or after them ("after")
 GidOf(p, slot) == IF slot = 0 THEN 0 ELSE IF p.padpos = "before" THEN p.pad + slot ELSE slot
 CaseOf(p) ==
   [enc |-> p.enc, first |-> p.first, target |-> p.target,
-   sm  |-> [i \in 1 .. Len(p.codes) |-> <<p.codes[i], GidOf(p, p.slots[i])>>],
+   sm  |-> IF p.fam = "tab" THEN EnumSeq(TabT(p.src)) ELSE [i \in 1 .. Len(p.codes) |-> <<p.codes[i], GidOf(p, p.slots[i])>>],
    ids |-> CASE p.padpos = "before" -> <<0>> \o Iota(p.pad) \o [i \in 1 .. Len(p.list) |-> p.pad + p.list[i]]
              [] p.padpos = "after"  -> <<0>> \o p.list \o [i \in 1 .. p.pad |-> p.G + i]
              [] p.padpos = "front"  -> <<0>> \o [i \in 1 .. p.pad |-> p.G + i] \o p.list]
 NumGlyphs(p) == 1 + p.G + p.pad
-ProbesOf(p) == CASE p.enc = "Unicode" -> XU [] p.enc = "AppleRoman" -> XM [] p.enc = "Symbol" -> XSOf(p.first)
-ProbeSetName(p) == CASE p.enc = "Unicode" -> "XU" [] p.enc = "AppleRoman" -> "XM" [] p.enc = "Symbol" -> "XS" \o ToString(p.first)
+ProbesOf(p) == IF p.fam = "tab" THEN XTOf(p.src)
+               ELSE CASE p.enc = "Unicode" -> XU [] p.enc = "AppleRoman" -> XM [] p.enc = "Symbol" -> XSOf(p.first)
+ProbeSetName(p) == IF p.fam = "tab" THEN "XT" \o ToString(p.src)
+                   ELSE CASE p.enc = "Unicode" -> "XU" [] p.enc = "AppleRoman" -> "XM" [] p.enc = "Symbol" -> "XS" \o ToString(p.first)
 
 \* printed once: the probe characters of each family (all: every probe; Unicode / AppleRoman /
 \* Symbol: the probes for which the Font view is judged when the output record has that encoding)
@@ -168,7 +279,18 @@ ProbeJson(X) == [all |-> Asc(X),
                  Symbol     |-> Asc({x \in X : FontViewApplies("Symbol", x)})]
 ASSUME PrintT(<<"PROBES", ToJson([XU |-> ProbeJson(XU), XM |-> ProbeJson(XM), sym |-> SYM] @@
                                  [n \in {"XS" \o ToString(f) : f \in SymFirsts} |->
-                                    ProbeJson(XSOf(CHOOSE f \in SymFirsts : "XS" \o ToString(f) = n))])>>)
+                                    ProbeJson(XSOf(CHOOSE f \in SymFirsts : "XS" \o ToString(f) = n))] @@
+                                 [n \in {"XT" \o ToString(i) : i \in 1 .. NTab} |->
+                                    ProbeJson(XTOf(CHOOSE i \in 1 .. NTab : "XT" \o ToString(i) = n))])>>)
+
+\* the table sources are sound, their enumeration is what their lookups say (Cmap!EnumerateEqualsLookups), every
+\* non-zero glyph is one of the font, and a Big5 source lists glyphs only under codes this specification knows
+ASSUME \A i \in 1 .. NTab :
+         LET ts == TabSources[i] IN
+         /\ SoundSource(ts.t)
+         /\ EnumerateEqualsLookups(ts.t, TabCodes(ts.t))
+         /\ \A k \in 1 .. Len(EnumSeq(ts.t)) : EnumSeq(ts.t)[k][2] \in 0 .. TG
+         /\ ts.enc = "Big5" => \A k \in 1 .. Len(EnumSeq(ts.t)) : EnumSeq(ts.t)[k][2] # 0 => Big5ToUni(EnumSeq(ts.t)[k][1]) # NoChar
 
 \* ---- the inverse law of the Symbol -> Mac Roman conversion (CmapSubset!SymInverseLaw) -------------------
 \* over every 16-bit code (a format 4 source holds no other), usFirstCharIndex on both sides of 0x20, of
@@ -183,7 +305,7 @@ ASSUME SymInverseLaw(SymToUni_SaturatingOffset, {f \in LawFirsts : f >= 32}, Law
 ASSUME \A f \in {0, 1, 16, 31} : ~SymInverseLaw(SymToUni_SaturatingOffset, {f}, LawCodes, LawChars)
 ASSUME ~SymInverseLaw(SymToUni_PuaFirst, {32}, LawCodes, LawChars)
 
-Init == (InitSmall \/ InitSegs \/ InitPad \/ InitHuge \/ InitZero \/ InitBorder \/ InitMac \/ InitSym) /\ done = FALSE
+Init == (InitSmall \/ InitSegs \/ InitPad \/ InitHuge \/ InitZero \/ InitBorder \/ InitMac \/ InitSym \/ InitTab) /\ done = FALSE
 Next == done = FALSE /\ done' = TRUE /\ UNCHANGED par
 Spec == Init /\ [][Next]_vars
 
@@ -192,6 +314,9 @@ DesignOK ==
   done =>
     LET c == CaseOf(par)  X == ProbesOf(par) IN
     /\ \A x \in X : Cardinality(Expected(c, x)) = 1        \* no optional character among the probes
+    \* a table source: the glyph the property speaks of is the one the table's LOOKUP gives the character's code
+    /\ par.fam = "tab" => \A x \in X : LET code == SrcCodeV(c, x, 164) IN
+                                        SrcGlyph(c, x) = (IF code = NoCode THEN 0 ELSE Map(TabT(par.src), code))
     /\ WrittenWellFormed(Subset(c))
     /\ ~Failed(Subset(c))
     /\ SubsetCmapOK(c, X) \/ (~FixFmt0 /\ Fmt0Overflow(c)) \/ (~FixSymInv /\ SymInvDiverges(c))
@@ -221,6 +346,9 @@ CaseJson(p) ==
   IN [fam |-> p.fam, enc |-> p.enc, first |-> p.first, os2 |-> p.os2, target |-> p.target, n |-> NumGlyphs(p),
       pad |-> p.pad, sm |-> c.sm, ids |-> c.ids,
       xs |-> ProbeSetName(p),
+      \* a table source: the record and the sub-table to encode, in the vocabulary of module Cmap
+      src |-> IF p.fam = "tab" THEN [name |-> TabSources[p.src].name, p |-> TabSources[p.src].p, e |-> TabSources[p.src].e, tab |-> TabT(p.src)]
+              ELSE [name |-> "", p |-> 0, e |-> 0, tab |-> [fmt |-> -1]],
       x  |-> xe,                                  \* non-zero expectations; every other probe: 0
       same |-> xe = xp,                           \* the writer model predicts exactly x
       pm |-> IF xe = xp THEN <<>> ELSE xp,        \* otherwise: the model's non-zero predictions
